@@ -87,6 +87,8 @@ func genC06Case(t *rapid.T) SSOCase {
 var c06Catalogue = append(append([]Defect(nil), c08DefectCatalogue...),
 	Defect{Name: "nb-future", Param: "1"}, Defect{Name: "noa-past", Param: "1"}, Defect{Name: "nb-future", Param: "86400"}, Defect{Name: "noa-past", Param: "86400"},
 	Defect{Name: "nb-garbage", Param: "lowerz"}, Defect{Name: "nb-garbage", Param: "offset"}, Defect{Name: "noa-garbage", Param: "nozone"}, Defect{Name: "noa-garbage", Param: "comma"}, Defect{Name: "noa-garbage", Param: "dateonly"},
+	Defect{Name: "nb-garbage", Param: "fractext"}, Defect{Name: "noa-garbage", Param: "fraczz"}, Defect{Name: "noa-garbage", Param: "fracjunk"}, Defect{Name: "nb-garbage", Param: "fracjunk"},
+	Defect{Name: "misnamespaced-child", Param: "Subject"}, Defect{Name: "misnamespaced-child", Param: "Conditions"}, Defect{Name: "misnamespaced-child", Param: "Issuer"},
 	Defect{Name: "dup-issuer", Param: "https://unregistered.example/metadata"},
 	Defect{Name: "issuer-other-ns", Param: "protocol"}, Defect{Name: "issuer-other-ns", Param: "foreign"},
 )
